@@ -93,3 +93,16 @@ claim(
     '',
     'AST table-agreement rules + three-valued path evaluation of the pass-through guards',
 )
+
+claim(
+    'C16',
+    'Decided (sufficient for the stated failure mode, under the premise read from the installed bs4 sources that '
+    'bs4/__init__ imports soupsieve via bs4.builder -> bs4.element -> bs4.css before it binds Tag etc.): no '
+    'import-time code of the package - module/class level statements, base lists, decorators, defaults, and every '
+    'function reachable from them in the type-resolved call graph - evaluates bs4.<name> or `from bs4... import '
+    'name` for a name that is not yet bound at that moment (also when wrapped in try/except, which only makes the '
+    'behaviour order-dependent); module-level imports inside the package are acyclic; the same code reaches no '
+    'print/warn outside a debug guard. Not decided: equality of select() results between import orders.',
+    'The safe-name sets are recomputed from the installed bs4 on every run.',
+    'import-time reachability over a type-resolved call graph + bs4 import-chain analysis',
+)
